@@ -123,8 +123,6 @@ impl<T> Vec<T> {
         ensures (i as int) <= old(self)@.len(), final(self)@ == old(self)@.insert(i as int, x),
     { unimplemented!() }
     #[verifier::external_body]
-    pub fn concat(&self, other: &Vec<T>) -> (r: Vec<T>) ensures r@ == self@ + other@ { unimplemented!() }
-    #[verifier::external_body]
     pub fn extend_from_array<const N: usize>(&mut self, a: [T; N]) ensures final(self)@ == old(self)@ + a@ { unimplemented!() }
     /// `Vec::slice(range)`: the host traps unless start <= end <= len
     #[verifier::external_body]
